@@ -11,6 +11,7 @@ import (
 	"github.com/libp2p/go-libp2p/core/peer"
 
 	"github.com/ipfs/go-graphsync"
+	"github.com/ipfs/go-graphsync/cidset"
 	gsimpl "github.com/ipfs/go-graphsync/impl"
 	gsmsg "github.com/ipfs/go-graphsync/message"
 )
@@ -28,10 +29,13 @@ type c09 struct {
 	req2 *Req
 	dag2 *DAG
 	// requestor-side pause of r1 at a block, resumed later by the caller
-	pauseAt  int64
-	paused   bool
-	pausedAt int
-	resumed  bool
+	oracleSplit Split // what the request can obtain (the responder's store minus what it was told not to send)
+	withheld    int
+	withheldSet *cid.Set
+	pauseAt     int64
+	paused      bool
+	pausedAt    int
+	resumed     bool
 }
 
 func newC09() Scenario { return &c09{c02: c02{prop: "C09"}} }
@@ -72,7 +76,30 @@ func (s *c09) Build(w *World) {
 	populate(s.a, s.dag, s.split.Rq)
 	populate(s.b, s.dag, s.split.Rs)
 	s.t = NewScripted(w, "T")
-	s.req = s.a.NewReq("r1", s.b, s.dag.Root, s.sel)
+	// the requestor may tell the responder not to send a few blocks it does not in fact hold: the responder
+	// then reports them present without data, and nobody may fill the gap - certainly not the third peer
+	var r1exts []graphsync.ExtensionData
+	s.oracleSplit = s.split
+	if t.Chance(250) {
+		set := cid.NewSet()
+		os := Split{Rq: s.split.Rq, Rs: map[cid.Cid]bool{}}
+		for c := range s.split.Rs {
+			os.Rs[c] = true
+		}
+		for _, c := range s.dag.Order {
+			if !c.Equals(s.dag.Root.Cid) && !s.split.Rq[c] && t.Chance(250) {
+				set.Add(c)
+				delete(os.Rs, c)
+			}
+		}
+		if set.Len() > 0 {
+			r1exts = append(r1exts, graphsync.ExtensionData{Name: graphsync.ExtensionDoNotSendCIDs, Data: cidset.EncodeCidSet(set)})
+			s.oracleSplit = os
+			s.withheld = set.Len()
+			s.withheldSet = set
+		}
+	}
+	s.req = s.a.NewReq("r1", s.b, s.dag.Root, s.sel, r1exts...)
 	if t.Chance(500) {
 		s.dag2 = GenDAG(t, GenCfg{MaxBlocks: 2 + t.Draw(8), MaxDepth: 1 + t.Draw(3), BlockPad: 11})
 		for _, c := range s.dag2.Order {
@@ -166,7 +193,7 @@ func (s *c09) Build(w *World) {
 }
 
 func (s *c09) Describe(w *World) string {
-	return fmt.Sprintf("%s hook=%s intruder=%v", s.c02.Describe(w), s.hookMode, s.kinds)
+	return fmt.Sprintf("%s hook=%s withheld=%d intruder=%v", s.c02.Describe(w), s.hookMode, s.withheld, s.kinds)
 }
 
 func (s *c09) Done(w *World) bool {
@@ -221,6 +248,17 @@ func (s *c09) Final(w *World) *Violation {
 			return &Violation{Property: "C09", Rule: "R1", Signature: "block-hook-handed-third-peer-response", Detail: fmt.Sprintf("incoming block hook for request %s (block #%d, step %d) was handed response data (status %d, extensions %v) that its responder never sent", shortReq(h.Req), h.Index, h.Step, h.Status, h.Exts)}
 		}
 	}
+	if s.withheldSet != nil {
+		// the requestor told the responder not to send blocks it does not hold (its own doing: how the
+		// request then ends is not compared). What must still hold: nobody fills the gap - a withheld block
+		// can come from nowhere legitimate, so it is never stored
+		for _, c := range s.a.Store.Commits {
+			if s.withheldSet.Has(c.Cid) {
+				return &Violation{Property: "C09", Rule: "R2", Signature: "withheld-block-stored", Detail: fmt.Sprintf("block %s, which the responder was told not to send and the requestor does not hold, was stored at step %d: its bytes can only have come from the third peer's message", shortCid(c.Cid), c.Step)}
+			}
+		}
+		return nil
+	}
 	// R3: nothing sent on a request's behalf because of the intruder
 	// (a stray response - for an unknown ID, or for a request that has ended - is answered
 	// like any stray response, e.g. with the update its hook asks for; that is not on a request's behalf)
@@ -273,7 +311,7 @@ func (s *c09) Final(w *World) *Violation {
 	csel09, _ := CanonicalSelector(s.sel)
 	if RefLoadsPathTwice(s.dag, csel09, s.split) || (s.paused && LinkSeqDiverge(s.dag, csel09, s.split, 1<<30)) {
 		w.Probe("c09-skip-known-c02-input-class") // recorded under C02 / C06; not the intruder's doing
-	} else if v := checkSingle("C09", s.req, s.dag, s.sel, s.split, only(s.dag)); v != nil {
+	} else if v := checkSingle("C09", s.req, s.dag, s.sel, s.oracleSplit, only(s.dag)); v != nil {
 		v.Rule = "R2"
 		v.Signature = "outcome-changed:" + v.Signature
 		return v
